@@ -63,7 +63,7 @@ static unsigned ref_nrev;
 
 static unsigned char ref_fs[NFS * B];
 
-struct ref_tag { unsigned long long blk; unsigned char esc; };
+struct ref_tag { unsigned long long blk; unsigned char esc; __u32 csum; };
 
 static __u32 ref_be32(const unsigned char *p)
 {
@@ -108,6 +108,13 @@ static unsigned ref_parse_tags(const unsigned char *d, struct ref_tag *tags)
 				tags[q].blk |= (unsigned long long) ref_be32(d + o + 8) << 32;
 #endif
 				tags[q].esc = (flags & 1) != 0;
+#if FEAT_CSUM == 3
+				tags[q].csum = ref_be32(d + o + 12);
+#elif FEAT_CSUM == 2
+				tags[q].csum = ((__u32) d[o + 4] << 8) | d[o + 5];
+#else
+				tags[q].csum = 0;
+#endif
 			}
 		n++;
 		off = o + REF_TB + ((flags & 2) ? 0 : 16);
@@ -160,7 +167,7 @@ static void ref_walk(__u32 s_sequence)
 	static unsigned char d[B];
 	static struct ref_tag tags[REF_MAXT + 1];
 #if FEAT_CSUM
-	int end_set = 0, need_time = 0;
+	int end_set = 0, need_time = 0, strict = 0;
 	unsigned long long last_time = 0;
 	__u32 crc = 0xffffffffu;
 	unsigned t;
@@ -181,6 +188,14 @@ static void ref_walk(__u32 s_sequence)
 			continue;
 		}
 #if FEAT_CSUM
+		if (strict) {
+			/* ASSUME: the block that follows a commit block reported as failed does not carry that same transaction id again
+			 * (do_one_pass() leaves only the switch there, keeps the id and walks on; what it then does with duplicates of the
+			 * failed transaction -- including spinning forever on a ring of them -- is outside) */
+			ref_bound_ok = 0;
+			ref_terminated = 1;
+			continue;
+		}
 		if (type == 2) {
 			unsigned long long ctime = ref_be64(d + 48);
 			int bad = 0;
@@ -197,7 +212,8 @@ static void ref_walk(__u32 s_sequence)
 			if (end_set) {
 				ref_failed_commit = 1;
 				ref_failed_ord = ref_end_ord;
-				ref_terminated = 1;
+				strict = 1;
+				pos = ref_adv(pos, 1);
 				continue;
 			}
 			if (!((d[12] == 1 && d[13] == 4 && ref_be32(d + 16) == crc) ||
@@ -216,7 +232,8 @@ static void ref_walk(__u32 s_sequence)
 #if !FEAT_ASYNC
 				ref_failed_commit = 1;
 				ref_failed_ord = ord;
-				ref_terminated = 1;
+				strict = 1;
+				pos = ref_adv(pos, 1);
 				continue;
 #endif
 			}
@@ -337,6 +354,8 @@ static int ref_revoked_by_table(unsigned long long blk, unsigned ord)
 #endif
 
 
+static int ref_data_csum_failed;
+
 /* apply the committed transactions in log order */
 static void ref_replay(void)
 {
@@ -355,6 +374,22 @@ static void ref_replay(void)
 				continue;
 			if (REF_REVOKED(tags[t].blk, ref_steps[n].ord))
 				continue;
+#if FEAT_CSUM >= 2
+			/* v2/v3: the tag stores the checksum of (transaction sequence as 4 big-endian bytes, then the logged block); v2 keeps the low 16 bits.
+			 * T-stub restated: checksum(block k, after the sequence prefix) = REF_CSUM(k) ^ (the prefix read as a native word) */
+			{
+				__u32 sq = REF_SEQ0 + ref_steps[n].ord;
+				__u32 sqbe = (sq >> 24) | ((sq >> 8) & 0xff00u) | ((sq << 8) & 0xff0000u) | (sq << 24);
+				__u32 want = ref_blk_csum(ref_adv(ref_steps[n].pos, 1 + t)) ^ sqbe;
+#if FEAT_CSUM == 2
+				want &= 0xffffu;
+#endif
+				if (tags[t].csum != want) {
+					ref_data_csum_failed = 1;	/* a logged block that fails its checksum is not written; recovery reports failure */
+					continue;
+				}
+			}
+#endif
 			ref_load(ref_adv(ref_steps[n].pos, 1 + t), data);
 			if (tags[t].esc) {
 				data[0] = 0xc0; data[1] = 0x3b; data[2] = 0x39; data[3] = 0x98;
